@@ -89,8 +89,14 @@ class InvBuilder(object):
                 Eq(VCls(cls_of(Acc('rv', item(l, i)))), ctype),
                 Or(Eq(ctype, VCls(SEC)), Eq(ctype, VCls(PROP))))),
             patterns=[(item(l, i),)])))
-        out.append(('T.len', Forall([l], Implies(alloc(l), Le(intlit(0), Select(llen, l))),
+        out.append(('T.len', Forall([l], Implies(And(alloc(l), Or(isc(l, SL), isc(l, LIST))),
+                                                 Le(intlit(0), Select(llen, l))),
                                     patterns=[(Select(llen, l),)])))
+        # no dangling reference in the value-list field of a Property
+        vals = lambda q: Select(H('_values'), q)                         # noqa: E731
+        out.append(('T.values', Forall([r], Implies(
+            And(alloc(r), isc(r, PROP), Is('VRef', vals(r))), alloc(Acc('rv', vals(r)))),
+            patterns=[(vals(r),)])))
         # ---- structure
         p = bvar('p!t', INT)
         out.append(('I1.sections', Forall([p, i], Implies(
